@@ -188,7 +188,7 @@ var checkC05Decode = register("C05/decode", func(c scoreCase2) string {
 	if !ok {
 		return ""
 	}
-	o, err := decode2(spec.Environmental, c.Input, c.NilRecv)
+	o, err := decodeCase2(spec.Environmental, c)
 	if err != nil || o.isNil() {
 		return fmt.Sprintf("canonical v2 vector rejected by the environmental decoder: %v", err)
 	}
@@ -290,7 +290,7 @@ func TestC05(t *testing.T) {
 		f := fieldCase2{B: b, HasT: hasT, T: tt}.withText()
 		evals++
 		cl["environmental-group-absent"]++
-		evalEnum(c, "decode", scoreCase2{Level: 2, NilRecv: i%2 == 0, Input: f.Vector}, checkC05Decode, &nviol)
+		evalEnum(c, "decode", scoreCase2{Level: 2, NilRecv: i%2 == 0, PreQuery: i%4 == 1, Input: f.Vector}, checkC05Decode, &nviol)
 	})
 	// ---- field sweeps ------------------------------------------------------------------
 	ok := true
@@ -395,7 +395,7 @@ func TestC05(t *testing.T) {
 				f.E = [5]int{ei / 320, (ei / 64) % 5, (ei / 16) % 4, (ei / 4) % 4, ei % 4}
 			}
 			f = f.withText()
-			cs := scoreCase2{Level: 2, NilRecv: k%2 == 0, Input: f.Vector}
+			cs := scoreCase2{Level: 2, NilRecv: k%2 == 0, PreQuery: k%4 == 1, Input: f.Vector}
 			ev2++
 			if c05NonTrivial(f) {
 				nt2++
@@ -569,7 +569,7 @@ func TestC05(t *testing.T) {
 	// ---- rapid: random vectors (shrinkable) ------------------------------------------------
 	c.rapidStage("rapid", pick(16000, 200000), func(rt *rapid.T) {
 		vec := gen.ValidV2(spec.Environmental).Draw(rt, "vector")
-		cs := scoreCase2{Level: 2, NilRecv: rapid.Bool().Draw(rt, "nilrecv"), Input: vec.String()}
+		cs := scoreCase2{Level: 2, NilRecv: rapid.Bool().Draw(rt, "nilrecv"), PreQuery: rapid.IntRange(0, 3).Draw(rt, "prequery") == 0, Input: vec.String()}
 		var f fieldCase2
 		f.B, f.HasT, f.T, f.HasE, f.E = spec.IdxV2(vec)
 		c.rec.Case("rapid", cs.Input, c05NonTrivial(f))
